@@ -18,6 +18,7 @@ var propTable = map[string]propDesc{
 			"R30: getChunkSize computes the documented v16 chunk size on every region of (mode, cardinality, document count)",
 			"R31: readLocation fills every field of the reused Location; reused result slots are cleared before they are handed out",
 			"R28: the chunked int coders reused from term to term are Reset after each term is written",
+			"R37b: a doc-value coder that is reset or recycled is given its chunk size before it is used again",
 			"R32b: a 1-hit dictionary entry is made outside writePostings only by re-encoding a decoded 1-hit entry or after a frequency was found equal to 1 on every way there",
 			"R29: every component encoded per location (field, position, start, end, array-position count) is computed from that very location",
 			"R29b: the frequency and has-locations flag encoded with a posting are computed inside the loop over the postings",
@@ -127,6 +128,7 @@ var propTable = map[string]propDesc{
 		Decides: []string{
 			"R10: every field of the pooled builder structs has a re-initialisation point; truncated slices are not re-extended over stale elements; Put only after a successful reset",
 			"R1: the pooled interim is singly owned",
+			"R37b: a doc-value coder that is recycled through the pooled opaque is given its chunk size before it is used again",
 		},
 		NotDecided: []string{"that every re-initialisation happens before the first read on every path", "byte equality of outputs"},
 	},
@@ -208,6 +210,7 @@ var propTable = map[string]propDesc{
 		Decides: []string{
 			"R7: no FAISS / section error is dropped; implementations of the section interface agree on propagating their writer's error",
 			"R6: every native index is released on every exit",
+			"R6f: a function that takes a native index out of its holder releases it on every way out",
 			"R7d: where the error of a vector-engine call on the build / merge path is tested, every way on from the failing side ends in a non-nil error return (no recovery that hides the failure)",
 		},
 		NotDecided: []string{"behaviour of the engine when it fails"},
